@@ -30,16 +30,16 @@ def mutator_histories(length):
         yield seq
 
 
-def observed_history(seq, cap):
-    obs = observers(cap)
-    ops, nxt = [], 1
+def observed_history_str(seq, cap, obs_str):
+    """the history as an sx string: each mutator followed by the whole observer block"""
+    parts, nxt = [], 1
     for t in seq:
         if t in (PUSH, PUSHFORCE):
-            ops.append([t, nxt]); nxt += 1
+            parts.append("(%d %d)" % (t, nxt)); nxt += 1
         else:
-            ops.append([t])
-        ops.extend(obs)
-    return ops
+            parts.append("(%d)" % t)
+        parts.append(obs_str)
+    return "(" + " ".join(parts) + ")"
 
 
 def rand_history(rng, cap, n):
@@ -76,13 +76,14 @@ def streams(seed, tier):
     out = []
     caps = (1, 2, 3, 4)
     # 1. every mutator sequence of length L, everything observed after every step
-    L = {"quick": 7, "thorough": 9, "search": 8}[tier]
+    L = {"quick": 7, "thorough": 8, "search": 8}[tier]
     cases = []
     for prof, ll in ((0, L), (1, L - 1 if tier == "quick" else L)):
         for kind in (0, 1):
             for cap in caps:
+                obs_str = " ".join(sx_str(o) for o in observers(cap))
                 for seq in mutator_histories(ll):
-                    cases.append(sx_str([prof, kind, cap, observed_history(seq, cap)]))
+                    cases.append("(%d %d %d %s)" % (prof, kind, cap, observed_history_str(seq, cap, obs_str)))
     out.append(Stream("mutators^%d+observe-all" % L, "buffer", "buffer.check", cases,
                       "every sequence of %d operations from {push, push_force, pop, flush} (release profile: %d), capacities 1..4, both kinds; after every operation all observers run "
                       "(capacity, size, to_string, copy_oldest, peek_oldest, peek_newest, iter, is_empty, is_full, get/get_mut(i) and copy(i) for i in 0..cap+1); covers all shorter sequences as prefixes"
@@ -126,7 +127,7 @@ LEVEL_TEXT = ("Machine-checked theorem C17_buffer_refines_bounded_seq: for every
               "(Vec of `capacity` cells, start/end/len cursors, the real `% capacity`, usize subtractions and `as i32`/`as usize` casts, Vec index panics) never panics and returns exactly the outputs and final contents of a bounded list: "
               "plain push ignored when full, forced push drops the oldest, Queue pops the oldest / Stack pops the newest, get(i) = i-th oldest / i-th newest, iteration oldest first, printing exactly the live items newest first, size = number of live items <= capacity "
               "(C17_buffer_inv_preserved, C17_buffer_step_refines, C17_buffer_run_refines from any state satisfying the invariant; C17_spec_bounded; C17_to_string_live_items_newest_first; C17_iter_live_items_oldest_first; C17_get_by_kind). "
-              "The model is tied to the code by running every sequence of 7 (thorough: 9) mutators with all observers after every step for capacities 1..4 and both kinds, every whole-API history up to length 3 (4), and random histories of 500 operations, "
+              "The model is tied to the code by running every sequence of 7 (thorough: 8) mutators with all observers after every step for capacities 1..4 and both kinds, every whole-API history up to length 3 (4), and random histories of 500 operations, "
               "on the real PushBuffer<i32> and on the extracted model, and by evaluating the specification itself on the implementation's outputs (C17_suite_result_is_spec: inside the quantifier the model's printed result is the specification's).")
 LEVEL_NOTE = ("Trusted: Coq kernel, extraction (ExtrOcamlBasic), ocaml/driver.ml, the Rust harness and generators; theorems are closed under the global context (no axioms). "
               "The model is hand-written: behaviour outside the generated histories is tied only by the proof-to-model link, not to the code. "
